@@ -47,6 +47,11 @@ func build() []op {
 	if err != nil {
 		panic(err)
 	}
+	// an image larger than io.Copy's 32 KiB chunk
+	big, err := authenticode.Parse(bytes.NewReader(pegen.Build(pegen.Layout{PE32Plus: true, Lfanew: 0x80, Secs: []pegen.Sec{{RawSize: 8}, {RawSize: 13}}, Trailing: 70001, Big: true})))
+	if err != nil {
+		panic(err)
+	}
 	ownerA := refesl.MkGUID(0x01020304, 0x0506, 0x0708, [8]byte{9, 10, 11, 12, 13, 14, 15, 16})
 	own := util.EFIGUID{Data1: 0x01020304, Data2: 0x0506, Data3: 0x0708, Data4: [8]byte{9, 10, 11, 12, 13, 14, 15, 16}}
 	h1 := bytes.Repeat([]byte{7}, 32)
@@ -69,6 +74,8 @@ func build() []op {
 		{"image.Signatures", func() string { s, err := p.Signatures(); return fmt.Sprint(len(s), err) }},
 		{"image.Verify(c1)", func() string { ok, err := p.Verify(keys.C(1)); return fmt.Sprint(ok, err) }},
 		{"image.Verify(c3)", func() string { ok, err := p.Verify(keys.C(3)); return fmt.Sprint(ok, err) }},
+		{"bigimage.Hash", func() string { return fmt.Sprintf("%x", big.Hash(crypto.SHA256)) }},
+		{"bigimage.Bytes", func() string { return sum(big.Bytes()) }},
 		{"db.Bytes", func() string { return sum(db.Bytes()) }},
 		{"db.Marshal", func() string { var b bytes.Buffer; db.Marshal(&b); return sum(b.Bytes()) }},
 		{"db.SigDataExists", func() string {
